@@ -446,6 +446,11 @@ def run(ck):
                     if g["Bq"] == Bx and g["S"] == Sx:
                         ck.ok("C03.R4", name, gsite)
                         return True
+                    if g["S"] == Sx and g["Bq"] != Bx and "bases" in g["Bq"].syms() and not any(isinstance(a_, T.App) and a_.op in ("index", "flip", "roll", "sort", "cat", "x:numpy.lexsort") for a_ in g["Bq"].all_atoms()):
+                        # one key per row, computed from the row (no row dropped or moved): the rows of a group are its own when
+                        # the key tells the bases apart - which this rule does not decide
+                        ck.undecided("C03.R4", name, gsite, "rows are grouped by a key computed row by row from the bases (%s): whether different bases get different keys is not decided" % (str(g["Bq"])[:100],))
+                        return False
                     if g["S"] == Sx and g["Bq"] != Bx and "bases" in g["Bq"].syms():
                         ck.violation("C03.R4", name, gsite, "row numbers computed on a filtered / reordered copy of the bases (%s) select rows of the unfiltered samples: the samples no longer go with their own bases"
                                      % (str(g["Bq"])[:100],))
